@@ -162,7 +162,10 @@ func checkC09(sc *Scenario, t *Truth) []Violation {
 					if st.ExitCode == 0 {
 						add("zero-exit-code-after-failed-launch", "", fmt.Sprintf("%s: its last launch failed but exit code 0 is reported", name))
 					}
-				} else if last != nil && last.ExitSeq >= 0 && last.ExitSeq < sn.Seq && st.ExitCode != last.Code {
+				} else if last != nil && last.ExitSeq >= 0 && last.ExitSeq < sn.Seq && st.ExitCode != last.Code && !t.explicitStartCovering(name, last.ExitSeq, sn.Seq) {
+					// (a process that was started again after that command - and has not launched
+					// another one: it was stopped, or skipped, while it waited - reports the fate
+					// of its new life, not the exit code of the old command)
 					add("exit-code-mismatch", "", fmt.Sprintf("%s is Completed with reported exit code %d but its last command exited with %d", name, st.ExitCode, last.Code))
 				}
 			case "Skipped", "Error":
